@@ -10,6 +10,8 @@
    harness on every amount of every case. *)
 From PJ Require Import Base.Prelude Csv.CsvModel Csv.CsvCodecProofs Csv.Fields Csv.FieldsProofs
   Csv.Wbs Csv.WbsSpec Csv.RowsProofs Csv.AssembleProofs Csv.WbsProofs Csv.RoundTrip gen.Consts.
+From Coq Require Import Permutation.
+From PJ Require Import Csv.Handwritten Csv.HandwrittenProofs.
 Open Scope Z_scope.
 
 (* the csv layer: what the reader makes of what the writer wrote, for rows of arbitrary text
@@ -87,7 +89,7 @@ Proof. exact (@read_bom_write_model). Qed.
 
 (* a file written by hand or by another program: whatever its line ends and quoting, if Python's csv reader
    splits it into the rows of the layout, with or without U+FEFF in front of the first header cell, it loads
-   with the meaning of w (rows or columns in another order: covered by the harness only) *)
+   with the meaning of w (rows or columns in another order, columns left out: the theorems after the examples) *)
 Theorem C13_handwritten : forall (F : Type) (repr_float : F -> text) (parse_float : text -> option F) (f_neg : F -> bool),
   float_codec_ok repr_float parse_float ->
   forall w : wbs F, wbs_ok f_neg w ->
@@ -112,6 +114,138 @@ Example C13_handwritten_inhabited :
   /\ parse_csv delim (BOM :: ex_lf_file) = Parsed (with_bom (to_rows Z print_int (flatten Z ex_wbs))).
 Proof. exact ex_lf_file_rows. Qed.
 
+(* ---------- hand-written files arranged differently (Csv/Handwritten.v, Csv/HandwrittenProofs.v) ----------
+   select [] pi row = [row[i] for i in pi]; select_cols pi applies it to the header and to every data row;
+   to_rows (flatten w) = the header and the rows write_csv writes for w. *)
+
+(* the columns in any order (default and custom columns interleaved, every data row arranged like the header):
+   the file loads as a WBS equivalent to w *)
+Theorem C13_columns_any_order : forall (F : Type) (repr_float : F -> text) (parse_float : text -> option F) (f_neg : F -> bool),
+  float_codec_ok repr_float parse_float ->
+  forall w : wbs F, wbs_ok f_neg w ->
+  forall pi, Permutation pi (seq 0 (length (csv_default_fields ++ custom_columns F (flatten F w)))) ->
+  let rows := select_cols pi (to_rows F repr_float (flatten F w)) in
+  forall s, parse_csv delim s = Parsed rows \/ parse_csv delim s = Parsed (with_bom rows) ->
+  exists w1, read_model F parse_float f_neg delim s = Some (Ok w1) /\ wbs_equiv w1 w.
+Proof. exact (@columns_any_order_statement_proved). Qed.
+
+(* what the order of the columns changes: the custom attributes of the re-read tasks (their __dict__ order) follow
+   the order cols' of the custom columns in the header - the equivalence of the property does not see it; when the
+   custom columns keep their relative order the WBS is exactly the one read from the file write_csv writes *)
+Theorem C13_columns_custom_order : forall (F : Type) (repr_float : F -> text) (parse_float : text -> option F) (f_neg : F -> bool),
+  float_codec_ok repr_float parse_float ->
+  forall w : wbs F, wbs_ok f_neg w ->
+  forall pi, Permutation pi (seq 0 (length (csv_default_fields ++ custom_columns F (flatten F w)))) ->
+  let rows := select_cols pi (to_rows F repr_float (flatten F w)) in
+  let cols' := filter is_custom_col (select [] pi (csv_default_fields ++ custom_columns F (flatten F w))) in
+  forall s, parse_csv delim s = Parsed rows \/ parse_csv delim s = Parsed (with_bom rows) ->
+  read_model F parse_float f_neg delim s = Some (Ok (map (norm_tree F cols') w))
+  /\ (cols' = custom_columns F (flatten F w) ->
+      read_model F parse_float f_neg delim s = Some (Ok (normalize F w))).
+Proof. exact (@columns_custom_order_statement_proved). Qed.
+
+(* an optional column (min_start or a custom column: position 10 or later of the written layout) left out:
+   the file loads as the WBS in which that field is None / that attribute absent on every task (drop_column) *)
+Theorem C13_missing_optional_column : forall (F : Type) (repr_float : F -> text) (parse_float : text -> option F) (f_neg : F -> bool),
+  float_codec_ok repr_float parse_float ->
+  forall w : wbs F, wbs_ok f_neg w ->
+  let names := csv_default_fields ++ custom_columns F (flatten F w) in
+  forall j, (length csv_default_fields <= j < length names)%nat ->
+  let rows := select_cols (without_col (length names) j) (to_rows F repr_float (flatten F w)) in
+  forall s, parse_csv delim s = Parsed rows \/ parse_csv delim s = Parsed (with_bom rows) ->
+  exists w1, read_model F parse_float f_neg delim s = Some (Ok w1)
+             /\ wbs_equiv w1 (drop_column (nth j names []) w).
+Proof. exact (@missing_optional_column_statement_proved). Qed.
+
+(* a default column left out (any choice pi of columns, in any order, that lacks one of the first ten) and at
+   least one task: header['...'] raises KeyError on the first data row *)
+Theorem C13_missing_required_column : forall (F : Type) (repr_float : F -> text) (parse_float : text -> option F) (f_neg : F -> bool),
+  float_codec_ok repr_float parse_float ->
+  forall w : wbs F, wbs_ok f_neg w -> w <> [] ->
+  let names := csv_default_fields ++ custom_columns F (flatten F w) in
+  forall pi, NoDup pi -> Forall (fun i => (i < length names)%nat) pi ->
+  (exists i, (i < length csv_default_fields)%nat /\ ~ In i pi) ->
+  let rows := select_cols pi (to_rows F repr_float (flatten F w)) in
+  forall s, parse_csv delim s = Parsed rows \/ parse_csv delim s = Parsed (with_bom rows) ->
+  read_model F parse_float f_neg delim s = Some (Crash KeyError).
+Proof. exact (@missing_required_column_statement_proved). Qed.
+
+(* raws_to_wbs on the TaskRaws in any order that keeps the relative order of the tasks under each parent and of the
+   roots (sibling_order_kept: a permutation with, for every parent p and for the roots, the same sub-list): the
+   forest is w itself, so wbs.tasks is the depth-first order of w whatever the order of the rows *)
+Theorem C13_rebuild_any_order : forall (F : Type) (f_neg : F -> bool) (w : wbs F),
+  wbs_ok f_neg w ->
+  forall raws', sibling_order_kept raws' (flatten F w) -> assemble F f_neg raws' = Ok w.
+Proof. exact (@rebuild_any_order_statement_proved). Qed.
+
+(* the rows in such an order (a child row may precede its parent row): the file loads as the very WBS read from
+   the file write_csv writes, equivalent to w, its task list in the depth-first order of w *)
+Theorem C13_rows_any_order : forall (F : Type) (repr_float : F -> text) (parse_float : text -> option F) (f_neg : F -> bool),
+  float_codec_ok repr_float parse_float ->
+  forall w : wbs F, wbs_ok f_neg w ->
+  forall raws', sibling_order_kept raws' (flatten F w) ->
+  let cols := custom_columns F (flatten F w) in
+  let rows := (csv_default_fields ++ cols) :: map (raw_to_row F repr_float cols) raws' in
+  forall s, parse_csv delim s = Parsed rows \/ parse_csv delim s = Parsed (with_bom rows) ->
+  exists w1, read_model F parse_float f_neg delim s = Some (Ok w1) /\ w1 = normalize F w
+             /\ wbs_equiv w1 w /\ Forall2 raw_equiv (flatten_plain w1) (flatten_plain w).
+Proof. exact (@rows_any_order_statement_proved). Qed.
+
+(* all of it at once: any choice of columns that has the default ones (col_choice_ok), in any order, the rows in
+   any order that keeps the siblings in order: the file loads as the WBS restricted to the chosen columns *)
+Theorem C13_any_layout : forall (F : Type) (repr_float : F -> text) (parse_float : text -> option F) (f_neg : F -> bool),
+  float_codec_ok repr_float parse_float ->
+  forall w : wbs F, wbs_ok f_neg w ->
+  forall raws', sibling_order_kept raws' (flatten F w) ->
+  let cols := custom_columns F (flatten F w) in
+  forall pi, col_choice_ok (length (csv_default_fields ++ cols)) pi ->
+  let rows := select_cols pi ((csv_default_fields ++ cols) :: map (raw_to_row F repr_float cols) raws') in
+  forall s, parse_csv delim s = Parsed rows \/ parse_csv delim s = Parsed (with_bom rows) ->
+  exists w1, read_model F parse_float f_neg delim s = Some (Ok w1)
+             /\ wbs_equiv w1 (keep_cols (select [] pi (csv_default_fields ++ cols)) w).
+Proof. exact (@any_layout_statement_proved). Qed.
+
+(* non-vacuity, computed on the WBS of C13_domain_inhabited (13 columns: the defaults, min_start, note, owner).
+   Columns reordered with owner before note: the hypotheses of C13_columns_any_order hold, the custom order
+   differs and the re-read WBS is not the one of the written file (it is equivalent to it) *)
+Example C13_columns_any_order_inhabited :
+  Permutation ex_col_order (seq 0 (length (csv_default_fields ++ custom_columns Z (flatten Z ex_wbs))))
+  /\ parse_csv delim ex_cols_file = Parsed (select_cols ex_col_order (to_rows Z print_int (flatten Z ex_wbs)))
+  /\ filter is_custom_col (select [] ex_col_order (csv_default_fields ++ custom_columns Z (flatten Z ex_wbs)))
+     <> custom_columns Z (flatten Z ex_wbs)
+  /\ (exists w1, read_model Z parse_int ex_neg delim ex_cols_file = Some (Ok w1) /\ w1 <> normalize Z ex_wbs).
+Proof. exact ex_cols_file_facts. Qed.
+
+(* the file without its min_start column (position 10): read as the WBS whose tasks have min_start None *)
+Example C13_missing_optional_column_inhabited :
+  length (csv_default_fields ++ custom_columns Z (flatten Z ex_wbs)) = 13%nat
+  /\ nth 10 (csv_default_fields ++ custom_columns Z (flatten Z ex_wbs)) [] = K_MIN_START
+  /\ parse_csv delim ex_no_min_start_file
+     = Parsed (select_cols (without_col 13 10) (to_rows Z print_int (flatten Z ex_wbs)))
+  /\ read_model Z parse_int ex_neg delim ex_no_min_start_file
+     = Some (Ok (normalize Z (drop_column K_MIN_START ex_wbs)))
+  /\ drop_column K_MIN_START ex_wbs <> ex_wbs.
+Proof. exact ex_no_min_start_file_facts. Qed.
+
+(* the file without its start column (position 3): KeyError *)
+Example C13_missing_required_column_inhabited :
+  NoDup (without_col 13 3) /\ Forall (fun i => (i < 13)%nat) (without_col 13 3)
+  /\ (3 < length csv_default_fields)%nat /\ ~ In 3%nat (without_col 13 3)
+  /\ parse_csv delim ex_no_start_file
+     = Parsed (select_cols (without_col 13 3) (to_rows Z print_int (flatten Z ex_wbs)))
+  /\ read_model Z parse_int ex_neg delim ex_no_start_file = Some (Crash KeyError).
+Proof. exact ex_no_start_file_facts. Qed.
+
+(* the rows in the order task 1 (a child of task 0), task 0, task 5, task -2 (the other child of task 0) *)
+Example C13_rows_any_order_inhabited :
+  (map (raw_id Z) ex_row_order = [1; 0; 5; -2] /\ sibling_order_kept ex_row_order (flatten Z ex_wbs))
+  /\ parse_csv delim ex_rows_file
+     = Parsed ((csv_default_fields ++ custom_columns Z (flatten Z ex_wbs))
+               :: map (raw_to_row Z print_int (custom_columns Z (flatten Z ex_wbs))) ex_row_order)
+  /\ read_model Z parse_int ex_neg delim ex_rows_file = Some (Ok (normalize Z ex_wbs))
+  /\ assemble Z ex_neg ex_row_order = Ok ex_wbs.
+Proof. exact (conj ex_row_order_kept ex_rows_file_facts). Qed.
+
 Print Assumptions C13_codec.
 Print Assumptions C13_fields.
 Print Assumptions C13_rebuild.
@@ -123,3 +257,14 @@ Print Assumptions C13_bom.
 Print Assumptions C13_handwritten.
 Print Assumptions C13_domain_inhabited.
 Print Assumptions C13_handwritten_inhabited.
+Print Assumptions C13_columns_any_order.
+Print Assumptions C13_columns_custom_order.
+Print Assumptions C13_missing_optional_column.
+Print Assumptions C13_missing_required_column.
+Print Assumptions C13_rebuild_any_order.
+Print Assumptions C13_rows_any_order.
+Print Assumptions C13_any_layout.
+Print Assumptions C13_columns_any_order_inhabited.
+Print Assumptions C13_missing_optional_column_inhabited.
+Print Assumptions C13_missing_required_column_inhabited.
+Print Assumptions C13_rows_any_order_inhabited.
